@@ -6,10 +6,12 @@ import ast
 from engine.cfg import CFG, normalise_compare, atoms
 from engine.dataflow import ReachingDefs
 from engine.effects import CONTAINER_MUTATORS
+from engine import pat
 from engine.model import src, stmt_key, dotted, walk_no_nested
 from engine.util import own_nodes, calls_with_nodes, where
 
 RULES = {
+    "R-19.11": "balance() merges only when no steal happened: the boolean result of every try_left_steal / try_right_steal call decides control flow (tested directly, or bound to a name that is tested) - a steal whose result is discarded is followed by a merge that overfills the node; and __copy__ of a tree always builds a new copy-on-write clone (`self.__class__(original=self)`), it never hands back the tree itself",
     "R-19.10": "keys and elements are arbitrary values (0, the empty name, an empty tuple are keys): in dns/btree.py a local or parameter whose 'absent' marker is None (initialised or defaulted to None) is never tested by truth value",
     "R-19.9": "absolute positioning leaves no residue of the previous position: seek(), seek_first() and seek_last() each assign every cursor state field that any of them assigns (node, index, recurse, increasing, parents, parked, parking key); and a cursor that lives across a `yield` (the consumer may mutate the tree between two steps) is registered with the tree by `with`, so mutations park it",
     "R-19.8": "the root is collapsed whenever a delete left it without keys - whether or not the key was found: the descent merges children on the way down before it knows, so an unsuccessful delete can empty the root too (an internal root with 0 keys and 1 child breaks the occupancy bound and adds a level)",
@@ -386,6 +388,34 @@ def run(model, rep, tier):
                           f"`{src(c)}` in a generator is not entered by `with`: it is never registered, so a mutation made by the consumer between two steps does not park it and the iteration "
                           "skips or repeats keys", stmt="generator-cursor")
     rep.floor("R-19.9-generators", n_gen, 1)
+    # ---------------------------------------------------------------- R-19.11
+    n_st11 = 0
+    for f11 in sorted(model.all_functions(), key=lambda g: g.qualname):
+        if f11.module.name != "dns.btree":
+            continue
+        for st in ast.walk(f11.node):
+            calls11 = [c for c in ast.walk(st) if isinstance(c, ast.Call) and isinstance(c.func, ast.Attribute) and c.func.attr in ("try_left_steal", "try_right_steal")] if isinstance(st, ast.stmt) else []
+            if not calls11 or any(isinstance(ch, ast.stmt) and any(c in list(ast.walk(ch)) for c in calls11) for ch in ast.iter_child_nodes(st) if isinstance(ch, ast.stmt)):
+                continue
+            n_st11 += 1
+            used = isinstance(st, (ast.If, ast.While, ast.Return, ast.Assert))
+            if isinstance(st, ast.Assign) and isinstance(st.targets[0], ast.Name):
+                nm11 = st.targets[0].id
+                tested = {a[0] for n in ast.walk(f11.node) if isinstance(n, (ast.If, ast.While)) for a in atoms(normalise_compare(n.test))}
+                all_assigned_used = all(isinstance(a2.value, ast.Call) or True for a2 in ast.walk(f11.node) if isinstance(a2, ast.Assign))
+                used = nm11 in tested and not any(isinstance(e2, ast.Expr) and any(c is c2 for c2 in ast.walk(e2) for c in calls11) for e2 in ast.walk(f11.node))
+            rep.check(used, "R-19.11", f11.qualname, where(f11, st), f"`{src(calls11[0].func)}` decides whether to go on",
+                      f"the result of `{src(calls11[0])[:50]}` is discarded: after a successful steal the code goes on to merge, producing a node above the maximum occupancy (a later insert asserts; lookups still look fine)",
+                      stmt=f"steal-result {calls11[0].func.attr}")
+        # statements that call a steal as a bare expression anywhere in the function
+    rep.floor("R-19.11", n_st11, 2)
+    for cq in ("dns.btree.BTree.__copy__",):
+        fc11 = model.func(cq)
+        rets11 = [r for r in ast.walk(fc11.node) if isinstance(r, ast.Return) and r.value is not None]
+        good11 = [r for r in rets11 if pat.match(pat.parse_expr("self.__class__(original=self)"), r.value, pat.Env())]
+        rep.check(bool(rets11) and len(good11) == len(rets11), "R-19.11", cq, where(fc11, next((r for r in rets11 if r not in good11), fc11.node)), "__copy__ always returns a fresh clone",
+                  f"`{src(next((r for r in rets11 if r not in good11), fc11.node))[:40]}`: copy.copy() of a tree can return the tree itself - two 'copies' are one object (not isolated), and a copy of a frozen tree refuses every mutation",
+                  stmt="copy-is-a-clone")
     # ---------------------------------------------------------------- R-19.10
     from engine.util import truthiness_uses
     n_sent = 0
@@ -543,6 +573,10 @@ def _root_owned(cfg, at):
 
 
 WITNESSES = [
+    {"id": "c19-balance-ignores-right-steal", "rule": "R-19.11", "file": "dns/btree.py", "expect": "fires",
+     "old": "        if self.try_left_steal(parent, index):\n            return\n        if self.try_right_steal(parent, index):\n            return", "new": "        stolen = self.try_left_steal(parent, index)\n        if not stolen:\n            self.try_right_steal(parent, index)\n        if stolen:\n            return"},
+    {"id": "c19-copy-returns-self-when-frozen", "rule": "R-19.11", "file": "dns/btree.py", "expect": "fires",
+     "old": "    def __copy__(self):\n        return self.__class__(original=self)", "new": "    def __copy__(self):\n        if self._immutable:\n            return self\n        return self.__class__(original=self)"},
     {"id": "c19-prev-keeps-parking-key", "rule": "R-19.6", "file": "dns/btree.py", "expect": "fires",
      "old": "        \"\"\"Get the previous element, or return None if on the left boundary.\"\"\"\n        self._maybe_unpark()\n        self.parking_key = None\n", "new": "        \"\"\"Get the previous element, or return None if on the left boundary.\"\"\"\n        self._maybe_unpark()\n"},
     {"id": "c19-original-key-truth-tested", "rule": "R-19.10", "file": "dns/btree.py", "expect": "fires",
